@@ -2,6 +2,7 @@
 
 from __future__ import annotations
 
+import datetime
 import logging
 from typing import TYPE_CHECKING
 
@@ -10,7 +11,10 @@ from aws_durable_execution_sdk_python.operation.base import (
     CheckResult,
     OperationExecutor,
 )
-from aws_durable_execution_sdk_python.suspend import suspend_with_optional_resume_delay
+from aws_durable_execution_sdk_python.suspend import (
+    suspend_with_optional_resume_delay,
+    suspend_with_optional_resume_timestamp,
+)
 
 if TYPE_CHECKING:
     from aws_durable_execution_sdk_python.identifier import OperationIdentifier
@@ -95,17 +99,35 @@ class WaitOperationExecutor(OperationExecutor[None]):
         # Ready to suspend (checkpoint exists)
         return CheckResult.create_is_ready_to_execute(checkpointed_result)
 
-    def execute(self, _checkpointed_result: CheckpointedResult) -> None:
+    def execute(self, checkpointed_result: CheckpointedResult) -> None:
         """Execute wait by suspending.
 
         Wait operations 'execute' by suspending execution until the timer completes.
         This method never returns normally - it always suspends.
 
         Args:
-            _checkpointed_result: The checkpoint data (unused for wait)
+            checkpointed_result: The checkpoint data (the recorded end time of the wait, if any)
 
         Raises:
             SuspendExecution: Always suspends to wait for timer completion
         """
         msg: str = f"Wait for {self.seconds} seconds"
+        operation = checkpointed_result.operation
+        scheduled_end = (
+            operation.wait_details.scheduled_end_timestamp
+            if operation and operation.wait_details
+            else None
+        )
+        if (
+            isinstance(scheduled_end, datetime.datetime)
+            and scheduled_end.tzinfo is not None
+        ):
+            # The wait is running since an earlier point in time (it is replayed, or its START was
+            # applied a round trip ago): park until the time the backend's timer fires, not for the
+            # full duration counted from now. When that time has passed but the record still says
+            # STARTED the completion is on its way: look again in a second rather than at once.
+            earliest = datetime.datetime.now(tz=datetime.UTC) + datetime.timedelta(
+                seconds=1
+            )
+            suspend_with_optional_resume_timestamp(msg, max(scheduled_end, earliest))
         suspend_with_optional_resume_delay(msg, self.seconds)  # throws suspend
